@@ -1,0 +1,65 @@
+// Copyright 2026 SCION Association
+//
+// Licensed under the Apache License, Version 2.0 (the "License");
+// you may not use this file except in compliance with the License.
+// You may obtain a copy of the License at
+//
+//   http://www.apache.org/licenses/LICENSE-2.0
+//
+// Unless required by applicable law or agreed to in writing, software
+// distributed under the License is distributed on an "AS IS" BASIS,
+// WITHOUT WARRANTIES OR CONDITIONS OF ANY KIND, either express or implied.
+// See the License for the specific language governing permissions and
+// limitations under the License.
+
+//go:build verif
+
+// Thin exports for the external verification harness (/verif). This file only exists with the
+// "verif" build tag and adds no behaviour to the package.
+
+package bfd
+
+import (
+	"time"
+
+	"github.com/gopacket/gopacket/layers"
+)
+
+// State and event numbers of the unexported state machine.
+const (
+	VerifStateAdminDown = uint8(stateAdminDown)
+	VerifStateDown      = uint8(stateDown)
+	VerifStateInit      = uint8(stateInit)
+	VerifStateUp        = uint8(stateUp)
+
+	VerifEventAdminDown = int(eventAdminDown)
+	VerifEventDown      = int(eventDown)
+	VerifEventInit      = int(eventInit)
+	VerifEventUp        = int(eventUp)
+	VerifEventTimer     = int(eventTimer)
+	VerifEventAdminUp   = int(eventAdminUp)
+)
+
+// VerifTransition exposes the transition table.
+func VerifTransition(st uint8, ev int) uint8 {
+	return uint8(transition(state(st), event(ev)))
+}
+
+// VerifShouldDiscard exposes the reception filter.
+func VerifShouldDiscard(pkt *layers.BFD) bool {
+	d, _ := shouldDiscard(pkt)
+	return d
+}
+
+// VerifSnapshot returns the local state, the learned remote discriminator and the Desired Min TX
+// interval the session currently advertises. The last value is owned by the Run goroutine; call
+// this only while that goroutine is quiescent (e.g. after synctest.Wait).
+func (s *Session) VerifSnapshot() (uint8, layers.BFDDiscriminator, time.Duration) {
+	return uint8(s.getLocalState()), s.getRemoteDiscriminator(), s.desiredMinTXInterval
+}
+
+// VerifSetState forces the local state (used by network-level harnesses to take a link up or
+// down without running the protocol).
+func (s *Session) VerifSetState(st uint8) {
+	s.setLocalState(state(st))
+}
